@@ -364,5 +364,38 @@ def run(F, rep, tier):
         else:
             rep.viol('R8.6', fn + '|inf-before-exact', 'ordering code converts a float exactly without separating +-inf first: a rational and an infinity become "incomparable"', convs[0].loc())
     rep.floor('R8.6', 'ordering functions using the partial exact conversion', n6, 1)
+    # ---------------- R8.7
+    rep.rule('R8.7', 'comparison is structural: no pointer-identity test (Rc::ptr_eq, Arc::ptr_eq, ptr::eq, ptr::addr_eq, as_ptr comparisons) in '
+             'the call closure of the comparison entry points - a value containing NaN is not equal to itself, so identity must not decide == '
+             'or <=>; positive control: the fixture crate contains one Rc::ptr_eq the same scan must find')
+    IDENT = re.compile(r'(Rc|Arc)<[^>]*>::ptr_eq$|rc::Rc::<T, A>::ptr_eq$|sync::Arc::<T, A>::ptr_eq$|::ptr_eq$|ptr::eq$|ptr::addr_eq$|ptr::fn_addr_eq$')
+
+    def ident_calls(FF, fns):
+        out = []
+        for fn in sorted(fns):
+            if not FF.has_fn(fn):
+                continue
+            for c in FF.body(fn).calls:
+                if IDENT.search(c.target):
+                    out.append((fn, c))
+        return out
+    found = ident_calls(F, closure)
+    for fn, c in found:
+        rep.viol('R8.7', '%s|pointer-identity' % fn, '%s decides a comparison by pointer identity (%s): `x == x` becomes true and `x <=> x` Equal for a shared value that contains NaN, while an equal but separately built value still compares unequal / incomparable' % (fn, c.target.rsplit('::', 2)[-2] + '::' + c.target.rsplit('::', 1)[-1]), c.loc())
+    if not found:
+        rep.ok('R8.7', 'comparison closure', '%d function(s), no pointer-identity test' % len(closure))
+    import os
+    fx = os.path.join(getattr(F, 'verif_dir', os.path.dirname(os.path.dirname(os.path.abspath(__file__)))), 'fixtures', 'unsafe_pos')
+    try:
+        from .core import Facts
+        fp, _c = F.ensure_facts(fx, crate='unsafe_pos')
+        FX = Facts(fp)
+        hits = ident_calls(FX, FX.fns)
+        if len(hits) == 1:
+            rep.ok('R8.7', 'positive control fixtures/unsafe_pos', 'the scan reports %s' % hits[0][0])
+        else:
+            rep.error('R8.7', 'positive control: expected exactly one pointer-identity call in the fixture, found %d' % len(hits))
+    except (AttributeError, SystemExit, OSError) as e:
+        rep.error('R8.7', 'positive control could not be analysed: %s' % e)
     rep.undecided += ['trichotomy / transitivity / antisymmetry as theorems', 'lexicographic comparison of sequences (std Vec/str partial_cmp)']
     return META
